@@ -44,30 +44,40 @@ def element_at_or_default_(
         scheduler: abc.SchedulerBase | None = None,
     ) -> abc.DisposableBase:
         index_ = index
+        done = False
 
         def on_next(x: _T) -> None:
-            nonlocal index_
+            nonlocal index_, done
             found = False
             with source.lock:
+                if done:
+                    # The element was found: anything that arrives while
+                    # it is still being delivered is not ours.
+                    return
                 if index_:
                     index_ -= 1
                 else:
                     found = True
+                    done = True
 
             if found:
                 observer.on_next(x)
                 observer.on_completed()
 
         def on_completed():
+            if done:
+                return
             if not has_default:
                 observer.on_error(ArgumentOutOfRangeException())
             else:
                 observer.on_next(cast(_T, default_value))
                 observer.on_completed()
 
-        return source.subscribe(
-            on_next, observer.on_error, on_completed, scheduler=scheduler
-        )
+        def on_error(error: Exception) -> None:
+            if not done:
+                observer.on_error(error)
+
+        return source.subscribe(on_next, on_error, on_completed, scheduler=scheduler)
 
     return Observable(subscribe)
 
